@@ -151,7 +151,8 @@ impl VisitMut for OperationTransformVisitor<'_> {
                 );
                 if transform_result.is_modified() {
                     expr.map_with_mut(|e| transform_result.expr.unwrap_or(e));
-                    opv_with_child_ctx.update_status(transform_result.status, transform_result.tag);
+                    // do not update status yet: the null guard is not a hook call, the file is
+                    // modified (and counted) when the guarded call is instrumented below
                 }
 
                 expr.visit_mut_children_with(opv_with_child_ctx);
